@@ -244,8 +244,96 @@ class Termination:
             return False, 'while-True loop without an exit on every path'
         if self._progress(n.body, tn, n.test):
             return True, 'every path through the body shrinks a variable of the loop test or leaves the loop'
+        why = self._iterator_stack(fn, n)
+        if why:
+            return True, why
         return False, (f'`while {ast.unparse(n.test)[:50]}`: some path through the body neither shrinks a variable of '
                        f'the test nor leaves the loop (possible hang)')
+
+    def _iterator_stack(self, fn: FuncInfo, n: ast.While) -> Optional[str]:
+        """Depth-first walk with an explicit stack of partly consumed iterators:
+               while S:                                   S a local list
+                   it[, ...] = S[-1]                      peek
+                   for x in it:                           resumes where this level was left
+                       ...
+                       S.append(<E derived from x>); break        descend: only directly followed by `break`
+                   else:
+                       S.pop()                            level exhausted
+           Every turn of the while loop consumes at least one element of some iterator or pops the stack; an iterator is
+           only pushed for something computed from the element just consumed (a part of it: the decoded document is a
+           finite tree), so the elements ever produced are finitely many.  Any other change of S, a push that does not
+           depend on x, a push not followed by break, or a missing pop in the else clause: no verdict from this variant."""
+        if not (isinstance(n.test, ast.Name) and not n.orelse):
+            return None
+        S = n.test.id
+        body = [st for st in n.body if not (isinstance(st, ast.Expr) and isinstance(st.value, ast.Constant))]
+        if len(body) != 2 or not isinstance(body[0], ast.Assign) or not isinstance(body[1], ast.For):
+            return None
+        peek, loop = body
+        if not (isinstance(peek.value, ast.Subscript) and isinstance(peek.value.value, ast.Name) and peek.value.value.id == S and
+                ast.unparse(peek.value.slice) == '-1' and len(peek.targets) == 1):
+            return None
+        tgt = peek.targets[0]
+        it_name = tgt.id if isinstance(tgt, ast.Name) else tgt.elts[0].id if isinstance(tgt, (ast.Tuple, ast.List)) and tgt.elts and \
+            isinstance(tgt.elts[0], ast.Name) else None
+        if it_name is None or not (isinstance(loop.iter, ast.Name) and loop.iter.id == it_name and isinstance(loop.target, ast.Name)):
+            return None
+        x = loop.target.id
+        # else clause: pops, and nothing else touches S
+        pops = [st for st in loop.orelse if isinstance(st, ast.Expr) and isinstance(st.value, ast.Call) and
+                isinstance(st.value.func, ast.Attribute) and st.value.func.attr == 'pop' and not st.value.args and
+                isinstance(st.value.func.value, ast.Name) and st.value.func.value.id == S]
+        if len(pops) != 1 or any(isinstance(y, ast.Name) and y.id == S for st in loop.orelse if st is not pops[0] for y in ast.walk(st)):
+            return None
+        # the for body: S only in `S.append(E)` statements directly followed by `break`; E depends on x
+        derived = {x}
+        changed = True
+        while changed:
+            changed = False
+            for a in ast.walk(loop):
+                if isinstance(a, ast.Assign) and any(isinstance(y, ast.Name) and y.id in derived for y in ast.walk(a.value)):
+                    for t in a.targets:
+                        for y in ast.walk(t):
+                            if isinstance(y, ast.Name) and y.id not in derived:
+                                derived.add(y.id)
+                                changed = True
+        n_push = 0
+
+        def scan(block: List[ast.stmt]) -> bool:
+            nonlocal n_push
+            for i, st in enumerate(block):
+                uses = [y for y in ast.walk(st) if isinstance(y, ast.Name) and y.id == S]
+                if isinstance(st, ast.Expr) and isinstance(st.value, ast.Call) and isinstance(st.value.func, ast.Attribute) and \
+                        st.value.func.attr == 'append' and isinstance(st.value.func.value, ast.Name) and st.value.func.value.id == S \
+                        and len(st.value.args) == 1 and len(uses) == 1:
+                    if not (i + 1 < len(block) and isinstance(block[i + 1], ast.Break)):
+                        return False
+                    if not any(isinstance(y, ast.Name) and y.id in derived for y in ast.walk(st.value.args[0])):
+                        return False
+                    n_push += 1
+                    continue
+                if isinstance(st, (ast.If, ast.With, ast.Try)):
+                    if any(isinstance(y, ast.Name) and y.id == S for y in ast.walk(getattr(st, 'test', ast.Pass()))):
+                        return False
+                    for fld in ('body', 'orelse', 'finalbody'):
+                        if not scan(getattr(st, fld, []) or []):
+                            return False
+                    for h in getattr(st, 'handlers', []):
+                        if not scan(h.body):
+                            return False
+                    continue
+                if isinstance(st, (ast.For, ast.While)) and uses:
+                    return False
+                if uses:
+                    return False
+            return True
+        if not scan(loop.body) or n_push == 0:
+            return None
+        if any(isinstance(y, ast.Name) and y.id == it_name and isinstance(y.ctx, ast.Store) for st in loop.body for y in ast.walk(st)):
+            return None
+        return (f'explicit stack of partly consumed iterators: every turn consumes an element of `{it_name}` or pops `{S}`; an '
+                f'iterator is pushed only for something computed from the element just taken (`{x}`), directly followed by break '
+                f'(a finite document has finitely many elements)')
 
     def _judge_for(self, fn: FuncInfo, n: ast.For) -> Tuple[bool, str]:
         it = n.iter
